@@ -31,7 +31,7 @@ mutual
       intro x hx
       rw [replaceKids_cons] at hx
       split at hx
-      · rw [handlesList_append, List.mem_append] at hx
+      · rw [fi_handlesList_append, List.mem_append] at hx
         rcases hx with hx | hx
         · rcases hg k x hx with h1 | h1
           · exact Or.inl (by simp [h1])
@@ -249,7 +249,7 @@ theorem le_detachRaw (f : Forest) (h : Nat) : Le f (f.detachRaw h) := by
       refine ⟨this.1.next, ?_⟩
       intro x hx
       unfold addRoot allHandles at hx
-      simp only [handlesList_append, handlesList_cons, handlesList_nil, List.append_nil, List.mem_append] at hx
+      simp only [fi_handlesList_append, handlesList_cons, handlesList_nil, List.append_nil, List.mem_append] at hx
       rcases hx with hx | hx
       · exact this.1.old x hx
       · exact Or.inl (this.2 t rfl x hx)
@@ -263,10 +263,10 @@ theorem le_spliceOut (f : Forest) (h : Nat) : Le f (f.spliceOut h) := by
     have hkids : ∀ x ∈ handlesList t.kids, x ∈ f.allHandles := by
       intro x hx
       apply handles_of_findList? h f.roots t hg x
-      rw [handles_eq]; exact List.mem_cons_of_mem _ hx
+      rw [fi_handles_eq]; exact List.mem_cons_of_mem _ hx
     have key : ∀ x ∈ handlesList (f.roots.filter (fun r => r.handle != h) ++ t.kids), x ∈ f.allHandles := by
       intro x hx
-      rw [handlesList_append, List.mem_append] at hx
+      rw [fi_handlesList_append, List.mem_append] at hx
       rcases hx with hx | hx
       · exact handlesList_filter_sub _ _ x hx
       · exact hkids x hx
@@ -277,7 +277,7 @@ theorem le_spliceOut (f : Forest) (h : Nat) : Le f (f.spliceOut h) := by
     · apply Le.of_sub (by rfl)
       intro x hx
       rcases handlesList_map_replaceBelow_sub h (fun n => n.kids) []
-        (by intro k x hx; left; rw [handles_eq]; exact List.mem_cons_of_mem _ hx) f.roots x hx with h1 | h1
+        (by intro k x hx; left; rw [fi_handles_eq]; exact List.mem_cons_of_mem _ hx) f.roots x hx with h1 | h1
       · exact h1
       · cases h1
 
@@ -314,8 +314,8 @@ theorem le_place {f0 f : Forest} (hle : Le f0 f) (t : HTree)
     rw [← mapAtList_eq_map] at hx
     exact handlesList_mapAtList_sub ref _ (handles t) (by
       intro k x hx
-      rw [handles_setKids, List.mem_cons, handlesList_append, List.mem_append] at hx
-      rw [handles_eq k, List.mem_cons]
+      rw [handles_setKids, List.mem_cons, fi_handlesList_append, List.mem_append] at hx
+      rw [fi_handles_eq k, List.mem_cons]
       simp only [handlesList_cons, handlesList_nil, List.append_nil] at hx
       rcases hx with hx | hx | hx
       · exact Or.inl (Or.inl hx)
@@ -329,7 +329,7 @@ theorem le_place {f0 f : Forest} (hle : Le f0 f) (t : HTree)
     exact handlesList_mapAtList_sub ref _ (handles t) (by
       intro k x hx
       rw [handles_setKids, List.mem_cons, handlesList_cons, List.mem_append] at hx
-      rw [handles_eq k, List.mem_cons]
+      rw [fi_handles_eq k, List.mem_cons]
       rcases hx with hx | hx | hx
       · exact Or.inl (Or.inl hx)
       · exact Or.inr hx
